@@ -83,9 +83,58 @@ def parse_sig(case, clause):
     return "%s:%s" % (clause, hashlib.sha1(bytes(data)).hexdigest()[:12])
 
 
+# ============================================================ family: handlers
+def run_handlers(pid, tier, seed):
+    vh = vlib.build_harness()
+    r1 = []
+    states_path, c, states = vlib.emit_states()
+    r1.append(c)
+    for mod, cfg, neg in [("MC_HandlerRange.tla", "MC_HandlerRange_fixed.cfg", None),
+                          ("MC_HandlerRange.tla", "MC_HandlerRange_wrapping.cfg", "InRange"),
+                          ("MC_HandlersImpl.tla", "MC_HandlersImpl.cfg", None)]:
+        if os.path.exists(os.path.join(vlib.SPEC, cfg)):
+            r1.append(vlib.model_check(mod, cfg, expect_violation=neg))
+    walks, nwalks = spec_walks(tier, seed)
+    g = vlib.run_gen(vh, "handlers", tier, seed, states=states_path, walks=walks)
+    res = {"r1": r1, "gens": [g]}
+    if "hang" in g:
+        res["hang"] = g["hang"]
+        return res
+    bads, consumed, notes = vlib.validate("TraceHandlers.tla", "TraceHandlers.cfg", g["files"])
+    res.update(bads=bads, consumed=consumed, notes=notes, spec_walks=nwalks)
+    return res
+
+
+def handlers_case(bad):
+    return vlib.event_at(bad["file"], bad["l"])
+
+
+def handlers_sig(case, clause):
+    key = json.dumps([case.get("kind"), case.get("in"), case.get("calls")])
+    return "%s:%s" % (clause, hashlib.sha1(key.encode()).hexdigest()[:12])
+
+
+def run_total(pid, tier, seed):
+    """C10: the hostile-handler traversals plus every entry point on hostile inputs."""
+    vh = vlib.build_harness()
+    res = run_handlers(pid, tier, seed)
+    if "hang" in res:
+        return res
+    g = vlib.run_gen(vh, "total", tier, seed)
+    res["gens"].append(g)
+    if "hang" in g:
+        res["hang"] = g["hang"]
+        return res
+    bads, consumed, notes = vlib.validate("TraceTotal.tla", "TraceTotal.cfg", g["files"], xmx="3g")
+    res["bads"] += bads
+    res["consumed"] += consumed
+    return res
+
+
 FAMILIES = {
-    "parse": {"run": run_parse, "case": parse_case, "sig": parse_sig,
-              "trace": ("TraceParse.tla", "TraceParse.cfg")},
+    "parse": {"run": run_parse},
+    "handlers": {"run": run_handlers},
+    "total": {"run": run_total},
 }
 
 # ====================================================================== checks
@@ -119,6 +168,41 @@ CHECKS = {
             "level_note": MC_NOTE},
 }
 
+HANDLERS_RULE = ("traversals = (reachable states of the TLA+ grammar machine inside an array/object: witness x byte-class "
+                 "members x completion) x handler strategies (all-0, all-exact, mixes), plus random/corpus/walk documents x "
+                 "(random well-behaved mixes; an error at every call position with every kind of accompanying offset; hostile "
+                 "answers and every mid-token offset at every call position); distinct = distinct (document, script); "
+                 "non-trivial = at least one handler call")
+CHECKS.update({
+    "C07": {"family": "handlers", "level": "model_checking", "rule": HANDLERS_RULE,
+            "technique": "TLA+ member-table spec (grammar) + protocol model; recorded handler call logs validated by TLC (R3)",
+            "level_text": "The member table (offsets of every member value and raw key range) and the success condition are "
+                          "computed by TLC from the TLA+ grammar for every recorded traversal and compared with the recording "
+                          "handler's call log (offsets recovered from slice capacities); 'exact' answers come from encoding/json "
+                          "and are re-derived by the specification.",
+            "level_note": MC_NOTE},
+    "C09": {"family": "handlers", "level": "model_checking", "rule": HANDLERS_RULE,
+            "technique": "TLA+ action property ErrorStopsAndIsIdentical; recorded traversals with sentinel errors validated by TLC (R3)",
+            "level_text": "Every recorded traversal in which the handler returned an error is checked: the failing call is the last "
+                          "call and the result is the identical sentinel (pointer equality logged by the harness), for every call "
+                          "position and accompanying offset of the hostile domain.",
+            "level_note": MC_NOTE},
+})
+
+CHECKS.update({
+    "C10": {"family": "total", "level": "exploration",
+            "rule": HANDLERS_RULE + "; plus every exported function (33 entry points x nil/reused buffer) on nests of 9999..10^6 in 8 "
+                    "array/object mixtures x 6 bottoms x closed/unclosed/over-closed, megabyte runs of 31 single tokens in 9 wrappers, all "
+                    "1- and 2-byte inputs over a hostile alphabet, random documents with mutations",
+            "technique": "TLA+ wrapping-arithmetic model of the resync range check (R1, with a negative config reproducing the overflow) + totality trace validation of all entry points (R3)",
+            "level_text": "Totality cannot be proved by execution; the offset arithmetic of the handler protocol is model-checked in "
+                          "wrapping W-bit arithmetic (the pre-fix variant yields the real overflow counterexample, the fixed variant "
+                          "passes), and every exported function is executed under recover() and a watchdog on hostile inputs and "
+                          "handler answers, with TLC checking 'normal return, nil error => offset in range, unusable answer => error'.",
+            "level_note": "sampled: 'never' over all inputs is established only on the explored ones; panics observed via recover(), "
+                          "non-termination via a 60 s no-progress watchdog"},
+})
+
 NOT_APPLICABLE = {}
 
 
@@ -127,6 +211,18 @@ def _set(ev, key, idx, val):
 
 
 SELFTESTS = [
+    {"label": "handlers_call_dropped", "trace": ("TraceHandlers.tla", "TraceHandlers.cfg"), "prop": "C07",
+     "case": {"op": "handle", "kind": 65, "in": [91, 49, 44, 34, 97, 34, 44, 91, 93, 93], "buf": 0, "calls": []},
+     "mutate": lambda ev: ev["calls"].pop(1)},
+    {"label": "handlers_key_range", "trace": ("TraceHandlers.tla", "TraceHandlers.cfg"), "prop": "C07",
+     "case": {"op": "handle", "kind": 79, "in": [123, 34, 97, 98, 34, 58, 49, 125], "buf": 0, "calls": []},
+     "mutate": lambda ev: _set(ev["calls"], 0, 1, ev["calls"][0][1] + 1) if False else ev["calls"][0].__setitem__(1, ev["calls"][0][1] + 1)},
+    {"label": "handlers_error_identity", "trace": ("TraceHandlers.tla", "TraceHandlers.cfg"), "prop": "C09",
+     "case": {"op": "handle", "kind": 65, "in": [91, 49, 44, 50, 93], "buf": 0, "calls": [[0, 0, 0, 0, 0, 0, 0], [0, 0, 0, 0, 0, 7, 0]]},
+     "mutate": lambda ev: _set(ev, "res", 2, -2)},
+    {"label": "total_offset", "trace": ("TraceTotal.tla", "TraceTotal.cfg"), "prop": "C10",
+     "case": {"op": "total", "in": [49, 50]},
+     "mutate": lambda ev: ev["r"][2].__setitem__(3, 9)},
     {"label": "parse_valid", "trace": ("TraceParse.tla", "TraceParse.cfg"), "prop": "C01",
      "case": {"op": "doc", "in": [91, 49, 44, 32, 123, 125, 93, 32]},
      "mutate": lambda ev: _set(ev, "o", 0, 1 - ev["o"][0])},
@@ -139,7 +235,23 @@ SELFTESTS = [
 ]
 
 
-def reproduce(fam, case, pid, clause, vh):
+def case_of(bad):
+    e = vlib.event_at(bad["file"], bad["l"])
+    if e["op"] == "sweep":
+        row = e["rows"][bad["row"] - 1]
+        return {"op": "doc", "in": e["pre"] + [row[0]] + e["sufs"][row[1]], "o": row[2:]}
+    return e
+
+
+RESULT_KEYS = {"o", "res", "unch", "r", "n", "fresh"}
+
+
+def sig_of(case, clause):
+    key = json.dumps({k: v for k, v in sorted(case.items()) if k not in RESULT_KEYS})
+    return "%s:%s:%s" % (case.get("op"), clause, hashlib.sha1(key.encode()).hexdigest()[:12])
+
+
+def reproduce(trace, case, pid, clause, vh):
     """Re-run the case on the real code and re-validate it; True if it fails again."""
     d = vlib.workdir()
     path = os.path.join(d, "replay_in_%d.json" % (int(time.time() * 1e6) % 10**9))
@@ -151,11 +263,18 @@ def reproduce(fam, case, pid, clause, vh):
         raise Infra("replay failed: " + p.stderr[-2000:])
     ev_path = path + ".ndjson"
     open(ev_path, "w").write(p.stdout)
-    tm, cfg = FAMILIES[fam]["trace"]
+    tm, cfg = trace
     bads, consumed, _ = vlib.validate(tm, cfg, [ev_path], par=1)
     fresh = json.loads(p.stdout.splitlines()[0])
     return any(b["prop"] == pid and b["clause"] == clause for b in bads) or \
         any(b["clause"] == "panic" and clause == "panic" for b in bads), fresh
+
+
+def _sample(s):
+    try:
+        return json.loads(s)
+    except Exception:
+        return s
 
 
 def run_check(pid, tier, seed):
@@ -179,14 +298,14 @@ def run_check(pid, tier, seed):
     mine = [b for b in res.get("bads", []) if b["prop"] == pid or b["clause"] == "panic"]
     # reproduce at most a bounded number of distinct failing cases
     for b in mine:
-        case = F["case"](b)
-        sig = F["sig"](case, b["clause"])
+        case = case_of(b)
+        sig = sig_of(case, b["clause"])
         if sig in seen_sigs:
             continue
         seen_sigs.add(sig)
         if len(violations) >= 5:
             break
-        ok, fresh = reproduce(fam, case, b["prop"], b["clause"], vh)
+        ok, fresh = reproduce(b["trace"], case, b["prop"], b["clause"], vh)
         if not ok:
             raise Infra("BAD event did not reproduce on replay (prop %s clause %s): %s"
                         % (b["prop"], b["clause"], json.dumps(case)[:500]))
@@ -196,8 +315,8 @@ def run_check(pid, tier, seed):
             print("KNOWN-FINDING: property=%s %s" % (pid, k[0]["text"]))
             continue
         path = os.path.join(outdir, "viol-%d.json" % (len(violations) + 1))
-        json.dump({"property": pid, "clause": b["clause"], "signature": sig, "family": fam, "event": case,
-                   "fresh_event": fresh}, open(path, "w"))
+        json.dump({"property": pid, "clause": b["clause"], "clause_property": b["prop"], "signature": sig,
+                   "trace": list(b["trace"]), "event": case, "fresh_event": fresh}, open(path, "w"))
         violations.append(path)
         print("VIOLATION property=%s replay=%s" % (pid, path))
     # evidence
@@ -208,7 +327,7 @@ def run_check(pid, tier, seed):
             stats["evaluations"] += s["evaluations"]
             stats["distinct_nontrivial"] += s["distinct_nontrivial"]
             stats["events"] += s["events"]
-            stats["samples"] += s["samples"][:3]
+            stats["samples"] += (s.get("samples") or [])[:3]
     r1 = res.get("r1", [])
     cov = {
         "states": sum(c.get("distinct", 0) for c in r1),
@@ -217,7 +336,7 @@ def run_check(pid, tier, seed):
         "evaluations": stats["evaluations"],
         "distinct_nontrivial": stats["distinct_nontrivial"],
         "rule": spec["rule"],
-        "samples": [json.loads(s) if s.startswith("{") else s for s in stats["samples"][:4]] or ["(none)"],
+        "samples": [_sample(s) for s in stats["samples"][:6]] or ["(none)"],
         "model_checks": r1,
         "events": stats["events"],
         "bad_events_all_properties": len(res.get("bads", [])),
@@ -237,13 +356,12 @@ def run_check(pid, tier, seed):
 
 def replay(path):
     ev = json.load(open(path))
-    fam = ev.get("family")
     pid = ev.get("property")
-    if fam not in FAMILIES:
-        print("replay file has no known family")
+    if "trace" not in ev:
+        print("replay file names no trace specification")
         return 2
     vh = vlib.build_harness()
-    ok, fresh = reproduce(fam, ev["event"], pid, ev["clause"], vh)
+    ok, fresh = reproduce(tuple(ev["trace"]), ev["event"], ev.get("clause_property", pid), ev["clause"], vh)
     print(json.dumps({"reproduced": ok, "fresh_event": fresh})[:4000])
     if ok:
         print("VIOLATION property=%s replay=%s" % (pid, path))
